@@ -27,8 +27,7 @@ def v_files():
     fs = []
     for d in DIRS:
         fs += sorted(glob.glob(os.path.join(COQ, d, "*.v")))
-    fs += [os.path.join(COQ, "extract", "Run.v"), os.path.join(COQ, "extract", "RunAll.v")]
-    fs += sorted(f for f in glob.glob(os.path.join(COQ, "extract", "Run_*.v")))
+    fs += sorted(glob.glob(os.path.join(COQ, "extract", "Run*.v")))
     return [os.path.relpath(f, COQ) for f in fs]
 
 
